@@ -113,6 +113,7 @@ def check(run):
             CR.check_application_order(run, c.methods['forward'], dirs, 'forward')
             circ.layer_application(run, c.methods['forward'], 'forward')
             CR.check_compile_folds(run, c.methods['compile'], dirs, only='forward_map')
+            CR.check_recompile(run, c.methods['compile'])
             CR.check_take(run, repo, c.methods['take'], has_measure and cname == 'Circuit')
             CR.check_placement(run, c.methods['take'])
             CR.check_linked_list(run, c.methods['take'])
@@ -152,6 +153,7 @@ def check(run):
                         entries.append(c.methods[m])
     resolve.check_cone(run, repo, entries, 'circuit forward')
     run.floor('R11.indep', 4)
+    run.floor('R11.recompile', 4)
     run.floor('R13.maskfn', 6)
     run.floor('R10.gen', 12)
     run.floor('R10.order', 8)
